@@ -175,3 +175,39 @@ func VH_C07_RequestsNamingTheRoot_sym() {
 		vAssert("root_request_read_path_in_root", c07Within("/r", p))
 	}
 }
+
+// Names carrying the partial-upload suffix, addressed to the file root itself (no path): "..", "." or "/" in front
+// of ".incomplete" must not take any read, stat, rename or removal out of the root either.
+func VH_C07_PartialSuffixNamesAtRoot_sym() {
+	vUnroll(200)
+	e := c07Env()
+	vAssume(e.fs.exists)
+	pre := vBytesEach("name_prefix", 3)
+	for i, b := range pre { // the bytes the path code distinguishes, and one ordinary byte; each case run on its own
+		vAssume(b == '.' || b == '/' || b == 'a')
+		pre[i] = byte(vConcrete(int(b)))
+	}
+	name := append(append([]byte(nil), pre...), ".incomplete"...)
+	nameField := f(hotline.FieldFileName, name)
+	switch vChoice("op", 3) {
+	case 0:
+		t := hotline.NewTransaction(hotline.TranDeleteFile, e.cc.ID, nameField)
+		HandleDeleteFile(e.cc, &t)
+	case 1:
+		t := hotline.NewTransaction(hotline.TranGetFileInfo, e.cc.ID, nameField)
+		HandleGetFileInfo(e.cc, &t)
+	default:
+		t := hotline.NewTransaction(hotline.TranMoveFile, e.cc.ID, nameField, f(hotline.FieldFileNewPath, vPathField("dest")))
+		HandleMoveFile(e.cc, &t)
+	}
+	for _, op := range vfsLog {
+		vAssert("suffix_name_written_path_in_root", c07Within("/r", op.name))
+	}
+	all := append(append(append(append([]string(nil), e.fs.removed...), e.fs.renamed...), e.fs.renameTo...), e.fs.written...)
+	for _, p := range all {
+		vAssert("suffix_name_changed_path_in_root", c07Within("/r", p))
+	}
+	for _, p := range e.fs.stats {
+		vAssert("suffix_name_read_path_in_root", c07Within("/r", p))
+	}
+}
